@@ -839,11 +839,23 @@ spec fn lit_op_ok(op: BinOp, x: int, y: int) -> bool {
         BinOp::Nop => true,
     }
 }
-/// an operator applied to two literals of incompatible types
+/// an `if` arm whose condition is a literal that is not a bool
+spec fn cond_clash(b: IfBranch) -> bool {
+    b.condition is Some && lit_head(b.condition->Some_0) is Some && lit_head(b.condition->Some_0)->Some_0 != 7
+}
+/// a construct applied to literals (nil, int, float, bool, str) of a type it does not accept:
+/// an operator on incompatible operands, `not` of a non-bool, a call / field access / constant index
+/// of a literal, a non-bool literal as condition, a list of literals of different types
 spec fn lit_clash(e: Expression) -> bool {
     match e {
         Expression::BinOp { a, b, op, .. } => lit_head(*a) is Some && lit_head(*b) is Some && !lit_op_ok(op, lit_head(*a)->Some_0, lit_head(*b)->Some_0),
         Expression::UniOp { a, op, .. } => op is Not && lit_head(*a) is Some && lit_head(*a)->Some_0 != 7,
+        Expression::Call { function, .. } => lit_head(*function) is Some,
+        Expression::BlobAccess { value, .. } => lit_head(*value) is Some,
+        Expression::Index { value, .. } => lit_head(*value) is Some,
+        Expression::If { branches, .. } => exists|k: int| 0 <= k < branches@.len() && cond_clash(#[trigger] branches@[k]),
+        Expression::Collection { collection, values, .. } => collection is List && exists|i: int, j: int| 0 <= i < j < values@.len()
+            && lit_head(#[trigger] values@[i]) is Some && lit_head(#[trigger] values@[j]) is Some && lit_head(values@[i])->Some_0 != lit_head(values@[j])->Some_0,
         _ => false,
     }
 }
@@ -1138,7 +1150,7 @@ impl TypeChecker {
     /// the frame every checker function obeys: the graph only grows, the variable table is fixed
     spec fn grows(&self, old: &TypeChecker) -> bool {
         self.types@.len() >= old.types@.len() && self.variables == old.variables && merges_from(old.types@, self.types@) && cons_from(old.types@, self.types@)
-            && heads_from(old.types@, self.types@)
+            && heads_from(old.types@, self.types@) && heads_kept(self.types@, self.types@)
     }
 
 //@ fn sylt-compiler/src/typechecker.rs push_type
@@ -1155,6 +1167,7 @@ impl TypeChecker {
             r.0 == old(self).types@.len(), //# C02 push_type.returns_fresh_id
             final(self).types@.len() == old(self).types@.len() + 1, //# C02,C07 push_type.spec.aux3
             push_frame(old(self).types@, final(self).types@, ty), //# C02 push_type.appends_one_singleton_class_and_touches_nothing_else
+            ty_of(final(self).types@, r) == ty, //# C02,C03 push_type.the_new_id_has_the_given_type
             merges_from(old(self).types@, final(self).types@), //# C02 push_type.classes_only_merge
             cons_from(old(self).types@, final(self).types@), //# C02 push_type.no_constraint_dropped
             heads_from(old(self).types@, final(self).types@), //# C02,C03 push_type.known_types_keep_their_shape
@@ -1804,8 +1817,7 @@ impl TypeChecker {
             r is Ok ==> e_pur(old(self).variables@, *expression, ctx.inside_pure), //# C04 expression.pure_functions_stay_pure_at_any_depth
             r is Ok ==> op_recorded(final(self).types@, *expression, r->Ok_0.1), //# C02,C03 expression.operators_record_their_constraint_on_both_operands
             r is Ok && lit_head(*expression) is Some ==> head(ty_of(final(self).types@, r->Ok_0.1)) == lit_head(*expression)->Some_0, //# C03 expression.a_literal_has_the_type_of_its_kind
-            heads_kept(final(self).types@, final(self).types@), //# - expression.spec.seed_term_of_the_known_types_chain
-            lit_clash(*expression) ==> r is Err, //# C03 expression.operator_on_literals_of_incompatible_types_is_rejected
+            lit_clash(*expression) ==> r is Err, //# C03,C05 expression.construct_on_literals_of_a_type_it_does_not_accept_is_rejected
             r is Ok ==> case_recorded(final(self).types@, *expression, old(self).variables@), //# C05 expression.case_requires_an_enum_with_every_arm_and_exactly_the_arms_without_else
 //@   endspec
 //@   ghost entry
@@ -1819,16 +1831,6 @@ impl TypeChecker {
 //@   ghost before
 //@| match self.find_type(expr) {
         proof { lemma_e_str_intro(vs, *expression, il, ip); } //# C04,C05 expression.children_obey_purity_and_loop_rules
-        proof { reveal(push_frame); assert(lit_head(*expression) is Some ==> head(ty_of(self.types@, expr)) == lit_head(*expression)->Some_0); }
-//@   endghost
-//@   ghost before
-//@| let boolean = self.push_type(Type::Bool);
-//@| with_ret(a_ret, self.unify(*span, ctx, a, boolean)?)
-                let ghost sn = self.types@; proof { lemma_rep0_props(sn, a.0 as int); }
-//@   endghost
-//@   ghost before
-//@| with_ret(a_ret, self.unify(*span, ctx, a, boolean)?)
-                proof { reveal(push_frame); }
 //@   endghost
 //@   ghost before-loop 1
                         let ghost n1 = self.types@.len();
@@ -1851,6 +1853,7 @@ impl TypeChecker {
                         forall|k: int| 0 <= k < branches@.len() ==> ib_ok(#[trigger] branches@[k], n), //# C07 expression.loop2.aux4
                         tys_valid(tys@, self.types@.len() as int), //# C07 expression.loop2.aux5
                         forall|k: int| 0 <= k < it.index@ ==> ib_str(vs, #[trigger] branches@[k], il, ip), //# C04,C05 expression.loop2.branches_checked
+                        forall|k: int| 0 <= k < it.index@ ==> !cond_clash(#[trigger] branches@[k]), //# C03 expression.loop2.no_literal_condition_so_far_is_a_non_bool
 //@   endloop
 //@   ghost before-loop 3
                         let ghost n3 = self.types@.len();
@@ -1931,6 +1934,7 @@ impl TypeChecker {
                         forall|k: int| 0 <= k < values@.len() ==> *(#[trigger] it.seq()[k]) == values@[k], //# - expression.loop10.aux3
                         forall|k: int| 0 <= k < values@.len() ==> e_ok(#[trigger] values@[k], n), //# C07 expression.loop10.aux4
                         forall|k: int| 0 <= k < it.index@ ==> e_both(vs, #[trigger] values@[k], il, ip), //# C04,C05 expression.loop10.elements_checked
+                        forall|k: int| 0 <= k < it.index@ && lit_head(#[trigger] values@[k]) is Some ==> head(ty_of(self.types@, inner_ty)) == lit_head(values@[k])->Some_0, //# C03 expression.loop10.the_element_type_is_the_type_of_every_literal_so_far
 //@   endloop
 //@   ghost before
 //@| let var = &self.variables[*var];
